@@ -29,7 +29,7 @@ def adapt(run):
             if ev["fired"]:
                 cur["fired"].append(ev["tag"])
         elif k == "deliver":
-            tick = {"ev": "Tick", "es": list(ev["x"]), "fired": []}
+            tick = {"ev": "Tick", "es": list(ev["x"]), "fired": [], "md": ev["md"]}
             out.append(tick)
         elif k == "cons_done" and not sync:
             out.append({"ev": "ConsumerDone"})
@@ -64,6 +64,8 @@ def attribute(run, trace, idx):
         return "C08", "end"
     ev = trace[idx - 1]
     k = ev["ev"]
+    if k == "Tick" and ev.get("md") != ev.get("es"):
+        return "C10", "batch %s was delivered with metadata %s (expected the members' metadata in member order)" % (ev.get("es"), ev.get("md"))
     if k in ("Tick", "Advance", "ObsBuf"):
         return "C08", "%s does not match the specification (batch content / tick time / buffer)" % k
     if k == "EmitRaised":
